@@ -88,13 +88,23 @@ contract(SH + "._add_shapes_namespaces_to_namespaces_dict", params={}, modifies=
 contract("shexer.utils.factories.remote_graph_factory:get_remote_graph_if_needed",
     params={"endpoint_url": O, "store_locally": Bool}, returns=Opt(Int), assume_only=True, verify=False,
     note="ASSUMED: building the endpoint wrapper does not raise")
+contract("shexer.io.shape_map.shape_map_parser:ShapeMapParser._check_input", params={"source_file": O, "raw_content": O},
+    raises=[("ValueError", "(source_file is None) == (raw_content is None)")], props=["C20"],
+    note="a shape map given both as file and as text (possible together with all_classes_mode, which Shaper._check_target_classes lets through) "
+         "is rejected here, inside the constructor: exactly one of the two")
 contract("shexer.utils.factories.shape_map_factory:get_shape_map_if_needed",
-    params={}, returns=Opt(Int), assume_only=True, verify=False,
-    note="ASSUMED: a well-formed shape map parses without raising (shape-map text validity is outside C20's argument product)")
+    params={"sm_format": Str, "remote_sgraph": Opt(Int), "namespaces_prefix_dict": Opt(Dict(Str, Str)), "target_classes": O, "file_target_classes": O,
+            "shape_map_file": O, "shape_map_raw": O, "instantiation_property": Str, "shape_map_already_built": Opt(Int), "rdflib_graph": O,
+            "raw_graph": O, "source_file_graph": O, "input_format": Str, "limit_remote_instances": Int},
+    returns=Opt(Int), raises=[("ValueError", "shape_map_file is not None and shape_map_raw is not None")], assume_only=True, verify=False,
+    note="ASSUMED: with a shape map present the parser's _check_input (verified above) runs and nothing else raises - a well-formed shape map "
+         "parses, and the graph that resolves its selectors can be built. The second half is KNOWN TO BE FALSE for list-of-files / URL sources, "
+         "compressed files and the formats tsv_spo / turtle_iter (finding F-C20-shape-map-graph-by-rdflib, exercised by bounded/config.py)")
 
 INIT_INVALID = [
     ("ValueError", n_present(SOURCES) + " != 1"),
     ("ValueError", BAD_TARGETS),
+    ("ValueError", "all_classes_mode and shape_map_file is not None and shape_map_raw is not None"),      # several target specifications
     ("ValueError", "disable_or_statements and allow_redundant_or"),
     ("ValueError", BAD_FORMAT),
     ("ValueError", "(%s) or (%s)" % (BAD_COMPRESSION, COMPRESSED_REMOTE)),
